@@ -10,7 +10,7 @@ import ErgoProofs.Lemmas.Ready
 import ErgoProofs.Lemmas.StorageThm
 import ErgoProofs.Lemmas.PlanShape
 import ErgoProofs.Lemmas.PropsAux
-import ErgoProofs.Lemmas.CodecInst
+import ErgoProofs.Lemmas.FileLog
 namespace Ergo
 
 /-- claim order, prune set and compaction output do not depend on map iteration order (any permutation of the item and
@@ -75,4 +75,11 @@ theorem C12_written_line_means_its_event (ets : Event → String) (e : Event) (h
 theorem C12_time_stamp_roundtrip (t : Time) (h : t < Time.maxT) : Time.parse (Time.format t) = some t :=
   Time.parse_format t h
 
+
+/-- state is a function of the log *file*: after any sequence of commands run one at a time from the empty store (clock readings before year
+    10000, lines shorter than the reader's limit), reading the bytes of `.ergo/plans.jsonl` with ergo's real line format gives exactly the event
+    list the commands computed — so every theorem about reachable logs (C05–C11, C14–C16) is a theorem about what is on disk -/
+theorem C12_file_decodes_to_the_log {limit : Nat} {log : List Event} {f : Storage.Bytes} (h : Codec.FileLog limit log f) :
+    Storage.readEvents Codec.classifyLine limit f = .ok log ∧ Codec.AllWf log :=
+  Codec.fileLog_reads h
 end Ergo
